@@ -26,7 +26,7 @@ CHECKS = {
    level="exploration",
    technique="property-based testing (proptest histories from a tape-driven query grammar, token soup, corpus mutation, aimed shapes, raw Unicode) with a crash/hang oracle in a supervised worker process and a static cost classifier",
    text="Histories of 20-120 input lines (<= 500 chars) are evaluated in order on one long-lived context inside a worker process with an 8 MiB main-thread stack and a 3 GiB address-space cap; each cheap input must come back from eval, to_string, the span tree and serde_json within 20 s (re-run alone with 60 s before a hang counts); panics are caught and reported by the worker, signal deaths (stack overflow, allocation abort) and overruns by the supervisor; a sentinel query every 10th position must keep its answer. A search: absence of crashes is never established.",
-   note="Inputs are classed cheap/expensive statically (literal exponents <= 5000, digits <= 10000, every intermediate <= 2^15 bits by abstract interpretation); expensive ones are skipped and counted, except a fixed alphabet of 131 extreme literals that is run with a 1 s budget (overrun tolerated, crash not). A ladder of 58 factorize operands of every complexity runs with the ordinary budget.",
+   note="Inputs are classed cheap/expensive statically (literal exponents <= 5000, digits <= 10000, every intermediate <= 2^15 bits by abstract interpretation, requested digits x bits of the value <= 10^7); expensive ones are skipped and counted, except a fixed alphabet of 131 extreme literals that is run with a 1 s budget (overrun tolerated, crash not). A ladder of 58 factorize operands of every complexity runs with the ordinary budget.",
    design="§4 C04, §2.1, §2.2"),
  "C06": dict(
    level="exploration",
